@@ -470,7 +470,7 @@ PROPS = {
         not_covered=['data-race freedom in the Go memory model (race detector, sampled schedules, thorough tier)', 'a read racing Close (read-side interleavings are not in Sched.v)'],
         level_text='Theorems for ALL schedules, thread counts and programs of the interleaving model: frames are written atomically, data frames of two messages never interleave, each writer\'s writes keep program order, '
                    'the frame lock is held wherever frame bytes are produced. Tie: hook-recorded schedules of real concurrent runs are accepted by the model and reproduce the frame order; the wire is judged by the extracted decoder.',
-        level_note='all-schedules theorems: frames atomic, messages unmixed, per-writer order, frame lock held while writing, and C05_acked_on_wire (a write that returned nil is on the wire completely and exactly once). Partial: data races in the Go memory model are not covered by a theorem (race-detector run in the thorough tier); the read side is serialised by readMu (mutual exclusion of sections proved in Model/Life.v, see C09/C10).',
+        level_note='all-schedules theorems: frames atomic, messages unmixed, per-writer order, frame lock held while writing, C05_acked_on_wire (a write that returned nil is on the wire completely and exactly once), and progress: C05_no_deadlock (open state, no leaked message lock => some thread can step), C05_closed_progress / C05_closed_bounded (after the close every call finishes in <= 3 own steps). Partial: data races in the Go memory model are not covered by a theorem (race-detector run in the thorough tier); the read side is serialised by readMu (mutual exclusion of sections proved in Model/Life.v, see C09/C10).',
         technique='Coq proof (5-part invariant over a small-step interleaving semantics) + replay of recorded schedules + decoder judge on concurrent runs',
     ),
     'C06': dict(
